@@ -17,7 +17,8 @@ Inductive fmt := FC | FCpp | FMql | FPy.
 Inductive tpiece :=
 | PLit (s : bytes)       (* "<literal>"                                 *)
 | PToString              (* std::to_string(v),   v = the parameter      *)
-| PToStringInt.          (* std::to_string(static_cast<int>(v))         *)
+| PToStringInt           (* std::to_string(static_cast<int>(v))         *)
+| PToStringTrim.         (* std::to_string(v) without its trailing zeros and without a dangling '.' *)
 
 Inductive tdisp :=
 | TText (l : list tpiece)   (* return p1 + p2 + ...;                             *)
